@@ -230,6 +230,13 @@ class FilterRig(object):
         return event
 
 
+def _same_reading(one, other):
+    from harness.fwread import read
+    a, b = read(one), read(other)
+    return (a.code is not None and a.code == b.code and a.sub == b.sub
+            and a.letters == b.letters and a.values == b.values)
+
+
 AT_SEPARATORS = [" ", "  ", "\t", " \t ", "   "]
 
 
@@ -266,7 +273,10 @@ class StreamRig(FilterRig):
             elif ret == src:
                 kind, out = "unchanged", []
             else:
-                kind, out = "list", self._lines(ret)
+                # the processor hands the handlers a re-rendered command; a forwarded line that
+                # reads like the input *is* the input (C20 decides the rendering itself)
+                kind, out = "list", [cmd if _same_reading(x, cmd) else x
+                                     for x in self._lines(ret)]
             shape = ret is None or (isinstance(ret, str) and ret.endswith("\n") and bool(out or
                                                                                          ret == src))
         except Exception as err:  # pylint: disable=broad-except
